@@ -24,15 +24,31 @@ CONFIG = dict(
                "actorex/service.Service (tryStartCheckTimer / checkExpired / freeTimer) is a model of its own (Model/TimerSvc.lean) whose every history is a "
                "history of the manager model (svc_refines_timer); proved for all service histories: the manager holds no timer but the one the service owns, "
                "an outstanding request always has its live 1 s check timer, the idle tick frees it, a freed timer never fires again. The `svc` run compares "
-               "the real Service with exactly this model (every driver step of a service-level case is a TimerSvc.svcStep).",
+               "the real Service with exactly this model (every driver step of a service-level case is a TimerSvc.svcStep). "
+               "The expiry closure of doLater (read Canceled, read running, send - the send possibly much later, the goroutine blocked on the full channel) "
+               "is split in Lemmas/TimerGap.lean and the atomic model step is justified for every interleaving with the owner: any stretch of owner-side "
+               "steps (Cancel of that very timer, Stop, creations, callback actions, time) between the checks and the send gives the state and events of "
+               "'atomic expiry first, same steps afterwards' (expire_gap_harmless, by induction over the stretch), a receive of an already queued element and "
+               "the expiry goroutine of another timer commute as well (expire_gap_receive_and_other_expiry). The panic clause is stated over the two steps "
+               "'panic, tail of Do' for every state and script (panic_leaves_rest_alone: no other object, queue, clock, allocator, running flag touched; "
+               "repeating re-armed for now+period, one-shot forgotten); callbacks of the acceptance run panic with a string, an error value, a Go runtime "
+               "error and a struct value. User code inside Service.checkExpired is in the service model: the completion callback of a timed-out request may "
+               "issue a follow-up request from inside the check timer's own callback (SOp.reqAgain); proved for all service histories: no tick creates a "
+               "timer (svc_tick_creates_no_timer), the follow-up is in the table and covered by the already owned, re-armed timer "
+               "(svc_followup_request_is_covered); the `svc` run issues such requests, lets them time out, answers or drops the follow-up.",
     level_note="Partial with respect to the Go runtime: time.AfterFunc/Timer.Stop semantics (function runs once, on another goroutine, not before the "
                "duration; virtualised by testing/synctest), FIFO wake-up of senders blocked on the full queue channel (the model's queue is an unbounded "
-               "list: its elements beyond 999 are the blocked senders), and atomicity of the unsynchronised Obj.Canceled / Mgr.running flags are "
+               "list: its elements beyond 999 are the blocked senders; that a sender which has passed its checks may send later is no longer assumed away: "
+               "expire_gap_harmless + case overflow-stop-with-blocked-senders), and atomicity of the unsynchronised Obj.Canceled / Mgr.running flags are "
                "assumptions of the model. Fairness (everybody keeps getting turns) is a hypothesis of the two inevitability theorems: it is what the Go "
                "scheduler and callbacks that return provide. 'Only on the draining goroutine' is a behavioural tie (goroutine identity observed on the real "
                "run service), the model has no goroutines. The theorems are about the models; the correspondence run ties them to the code on sampled "
                "histories only. Id wrap-around of SerialIdService64 (2^64) is not modelled; user callbacks of timed-out requests (Service.checkExpired "
-               "calling wait.CB) are empty in the service-level model.",
+               "calling wait.CB) are empty or issue one follow-up request in the service-level model - a completion callback that PANICS inside "
+               "checkExpired is not in the service model (which of the other expired entries are dropped before the panic depends on Go's map iteration "
+               "order; at manager level the panic is covered: panic_leaves_rest_alone). The value a callback panics with is not in the model "
+               "(recover() takes every value, the handler only prints it): that Mgr.do contains every kind of value is a behavioural tie (string, error, "
+               "runtime error, struct on every run), runtime.Goexit and fatal errors inside a callback are outside.",
     lean_targets=["Cell2v.Props.C14", "modeld_c14"],
     driver="modeld_c14",
     driver_root="Cell2v.Driver.C14",
@@ -44,7 +60,9 @@ CONFIG = dict(
                        "svc_refines_timer", "svc_holds_only_owned_timer", "svc_request_keeps_check_timer",
                        "svc_idle_tick_frees", "svc_freed_timer_never_fires",
                        "repeating_fires_infinitely_often", "oneshot_fires_exactly_once_eventually", "schedule_prefix_is_history",
-                       "foreign_creator_leaks_entry"],
+                       "foreign_creator_leaks_entry",
+                       "expire_gap_harmless", "expire_gap_receive_and_other_expiry", "panic_leaves_rest_alone",
+                       "svc_tick_creates_no_timer", "svc_followup_request_is_covered"],
     harness_pkg="./c14",
     mode="accept",
     reset_prefix="reset",
@@ -58,12 +76,15 @@ CONFIG = dict(
     },
     trivial=r"^(ok|empty|bad-op|q=\d+|id=\d+ q=\d+|now=\d+ q=0|ev= q=0 loop=1)?$",
     rule="cases generated from one PRNG (VERIF_SEED): each case = reset, 5 callback scripts (cancel self / cancel other id / cancel newest / "
-         "After / AddTimer / panic, creation chains finite by construction), then 8-40 ops among after/add (durations -1..8 ms, so ties are frequent), "
+         "After / AddTimer / panic - throwing, at random, a string, an error value, a Go runtime error (write to a nil map) or a struct value; a panic "
+         "that leaves Mgr.Do is the observation `panic ...` resp. the death of the run-service process -, creation chains finite by construction), then 8-40 ops among after/add (durations -1..8 ms, so ties are frequent), "
          "cancel (existing, already fired, not yet allocated, absurd ids), adv (virtual ms), do (consumer receives one element and calls Mgr.Do), stop; "
          "30% structured scenarios (cancel while the expiry is queued; cancel inside the own callback; two simultaneous expiries cancelling each other; "
          "panicking repeating timer; boundary duration-1 / duration; many ties; cancel after firing / twice / before creation; late drain of a repeating "
          "timer; Stop), 20% of the cases on a real StandardRunService (ops posted to its loop; every callback must run on the loop goroutine), one "
-         "queue-overflow case (1005 timers > channel capacity 999), one malformed stream; corpus first. A tenth of the cases: the run service's loop is parked in a posted closure while timers expire (their objects "
+         "queue-overflow case (1005 timers > channel capacity 999), a second overflow case in which Cancel and Mgr.Stop "
+         "arrive while senders are blocked on the full channel (their objects still reach the queue: cancelled one skipped, the others called after Stop), "
+         "one malformed stream; corpus first. A tenth of the cases: the run service's loop is parked in a posted closure while timers expire (their objects "
          "pile up in the queue), then StandardRunService.Stop is called from a foreign goroutine while the loop is still stuck, or after it "
          "resumed, or by the owner itself (no callback may run inside Stop / on the caller's goroutine; how many queued objects the exiting "
          "loop still takes is left open, q=?). Stale cancels (already fired one-shot, 0, never issued id, twice) are followed by new "
@@ -75,7 +96,9 @@ CONFIG = dict(
          "(actor + ScheDisp run service) issues requests to a recording peer, gets them answered or lets them time out, idles across several virtual "
          "seconds and gets busy again; observed per step: callback log of every timer object of the service's manager, ids held in Mgr.timers, "
          "Service.timerCheckExpired, request-table size (spec: a check timer the service gave up never fires again and is gone from the manager; "
-         "at most the one owned timer is alive); the model side of this run is the Lean service model TimerSvc (req / resp / tick / expire / advance). A case is non-trivial when the observation "
+         "at most the one owned timer is alive); the model side of this run is the Lean service model TimerSvc (req / reqAgain / resp / tick / expire / advance). "
+         "A third of the requests carry a completion callback that, when called with ErrTimeout from inside checkExpired, issues a follow-up request "
+         "(tag+1000), which is answered, answered too late, or times out in turn; a third of the cases end with a request that is never answered and retried once. A case is non-trivial when the observation "
          "contains a callback log or a non-empty queue; distinct = distinct (op, observation) pairs",
     trusted_base=[
         "Lean 4.33.0 kernel; axioms of every property theorem audited on each run (allowed: propext, Classical.choice, Quot.sound)",
